@@ -130,4 +130,113 @@ decreasing_by
   have := skip_progress r nh _hs r' next _hr
   omega
 
+/-! ## a reader whose `seek` can fail
+
+  `Seek::seek` returns `io::Result<u64>`, and both functions propagate its error with `?`
+  (`reader.seek(std::io::SeekFrom::Current(rest_length - 1))?;`).  The reader below counts its
+  `seek` calls; the call with index `seekFail` (0-based, over the whole run) returns an error and
+  leaves the position where it was, every other call behaves like `seekCur`.  The functions are
+  written again call by call (read, seek, read), now with an error type that tells the two kinds
+  of failure apart; `seekFail = none` is provably the old function (`Props/C16.lean`). -/
+
+/-- errors of the skip functions over a reader whose seek can fail -/
+inductive SkipError where
+  /-- an error of a `read_exact` (`?` behind the first or the last read) -/
+  | io (e : IoError)
+  /-- the injected error of the failing `seek` (`?` behind the seek) -/
+  | seek
+deriving DecidableEq, Repr
+
+def SkipError.render : SkipError → String
+  | .io e => e.render
+  | .seek => "err(seek)"
+
+/-- the failing reader with a `Seek` that counts its calls (`seeks`) and fails at the call with
+    index `seekFail`. -/
+structure SReader where
+  rd : Reader
+  /-- number of `seek` calls made so far -/
+  seeks : Nat
+  /-- the 0-based index of the `seek` call that fails (`none`: no call fails) -/
+  seekFail : Option Nat
+deriving DecidableEq, Repr
+
+/-- `seek(SeekFrom::Current(n))`, `n ≥ 0`: the call is counted; the failing call reports the error
+    and does not move; any other call moves like `seekCur`. -/
+def SReader.seekCur (s : SReader) (n : Nat) : SReader × Except SkipError Unit :=
+  if s.seekFail = some s.seeks then
+    ({ rd := s.rd, seeks := s.seeks + 1, seekFail := s.seekFail }, .error .seek)
+  else ({ rd := Skip.seekCur s.rd n, seeks := s.seeks + 1, seekFail := s.seekFail }, .ok ())
+
+/-- a `read_exact(..)?` on the inner reader -/
+def SReader.readExact (s : SReader) (n : Nat) : SReader × Except SkipError Bytes :=
+  match s.rd.readExact n with
+  | (r, .error e) => ({ rd := r, seeks := s.seeks, seekFail := s.seekFail }, .error (.io e))
+  | (r, .ok b) => ({ rd := r, seeks := s.seeks, seekFail := s.seekFail }, .ok b)
+
+/-- `Ipv6Header::skip_header_extension(reader, next_header)` call by call: first read (`?`),
+    seek (`?`), one byte read (`?`), `Ok(IpNumber(buf[0]))`. -/
+def skipExtSf (s : SReader) (nh : Nat) : SReader × Except SkipError Nat :=
+  match kindOf nh with
+  | none => (s, .ok nh)
+  | some kind =>
+    match s.readExact kind.firstRead with
+    | (s1, .error e) => (s1, .error e)
+    | (s1, .ok buf) =>
+      match s1.seekCur (kind.restLength buf - 1) with
+      | (s2, .error e) => (s2, .error e)
+      | (s2, .ok ()) =>
+        match s2.readExact 1 with
+        | (s3, .error e) => (s3, .error e)
+        | (s3, .ok _) => (s3, .ok (bAt buf 0))
+
+/-- forgetting the seek counter: an `Ok` of the new function is an `Ok` of the old one on the
+    inner reader (used for the termination of the loop). -/
+theorem skipExtSf_ok (s : SReader) (nh : Nat) (s' : SReader) (next : Nat)
+    (h : skipExtSf s nh = (s', .ok next)) :
+    skipHeaderExtension s.rd nh = (s'.rd, .ok next) := by
+  unfold skipExtSf at h
+  unfold skipHeaderExtension
+  cases hk : kindOf nh with
+  | none =>
+    rw [hk] at h
+    simp only [Prod.mk.injEq, Except.ok.injEq] at h
+    obtain ⟨h1, h2⟩ := h
+    subst h1; subst h2; rfl
+  | some kind =>
+    rw [hk] at h
+    simp only [SReader.readExact, SReader.seekCur] at h ⊢
+    cases h1 : s.rd.readExact kind.firstRead with
+    | mk r1 res1 =>
+      rw [h1] at h
+      cases res1 with
+      | error e => simp at h
+      | ok buf =>
+        simp only at h ⊢
+        by_cases hf : s.seekFail = some s.seeks
+        · simp [hf] at h
+        · simp only [hf, if_false] at h
+          cases h3 : (seekCur r1 (kind.restLength buf - 1)).readExact 1 with
+          | mk r3 res3 =>
+            rw [h3] at h
+            cases res3 with
+            | error e => simp at h
+            | ok b =>
+              simp only [Prod.mk.injEq, Except.ok.injEq] at h
+              obtain ⟨h4, h5⟩ := h
+              subst h4; subst h5; rfl
+
+/-- `Ipv6Header::skip_all_header_extensions(reader, next_header)`: the `loop`, every error of
+    `skip_header_extension` leaves it (`?`). -/
+def skipAllSf (s : SReader) (nh : Nat) : SReader × Except SkipError Nat :=
+  if _hs : isSkippable nh then
+    match _hr : skipExtSf s nh with
+    | (s', .error e) => (s', .error e)
+    | (s', .ok next) => skipAllSf s' next
+  else (s, .ok nh)
+termination_by s.rd.limit - s.rd.pos
+decreasing_by
+  have := skip_progress s.rd nh _hs s'.rd next (skipExtSf_ok s nh s' next _hr)
+  omega
+
 end EpModel.Io.Skip
